@@ -29,7 +29,21 @@ contract(
     locals=dict(to_pop='List[Int]'),
     raises={'RuntimeError': ('iff', "any(p.exitcode is not None and p.exitcode != 0 "
                                     "for p in process_list)")},
+    volatile=dict(process_list=['exitcode']),
+    env_assumes=[
+        # A-PROC: an observed exit code is the code the process ended with
+        "all(implies(p.exitcode is not None, p.exitcode == final_code(p.pid)) for p in process_list)"],
+    requires=[
+        "all(process_list[a].pid != process_list[b].pid for a in range(len(process_list)) "
+        "for b in range(len(process_list)) if a < b)"],
     ensures=[
+        # caller's view (by pid): no process appears from nowhere, a process leaves the pool only
+        # after ending with exit code 0, pids stay pairwise distinct
+        "all(any(q.pid == p.pid for q in old(process_list)) for p in result)",
+        "all(implies(not any(q.pid == p.pid for q in result), final_code(p.pid) == 0) "
+        "for p in old(process_list))",
+        "all(result[a].pid != result[b].pid for a in range(len(result)) "
+        "for b in range(len(result)) if a < b)",
         # survivors come from the input, everything that was dropped had exited with code 0,
         # nothing that had exited survives
         "all(p in old(process_list) for p in result)",
@@ -55,7 +69,9 @@ contract(
             "if _i > 0 and q >= _it[_i - 1])",
             "all(p in old(process_list) for p in process_list)",
             "all(implies(p not in process_list, p.exitcode is not None and p.exitcode == 0) "
-            "for p in old(process_list))"],
+            "for p in old(process_list))",
+            "all(process_list[a].pid != process_list[b].pid for a in range(len(process_list)) "
+            "for b in range(len(process_list)) if a < b)"],
     },
 )
 
